@@ -10,7 +10,10 @@
 //	          whatever the earlier ones left in the directory; a store completes, has its write fail after
 //	          k bytes (RLIMIT_FSIZE = k, SIGXFSZ ignored -> EFBIG), or is killed (RLIMIT_FSIZE = k with the
 //	          default action of SIGXFSZ restored, or SIGKILL injected on entry of fchmod / fsync / rename);
-//	          after every store the file is read through the real getter
+//	          after every store the file is read through the real getter; with "oneproc" all stores of the
+//	          history run in ONE child process on ONE long-lived store object (obj.go)
+//
+// Large values and exact file sizes for the round trips: big.go.
 package main
 
 import (
@@ -51,6 +54,14 @@ type Value struct {
 	Threshold int        `json:"threshold"`
 	Peers     []string   `json:"peers,omitempty"`
 	Topo      []TopoPeer `json:"topo,omitempty"`
+	// large values (big.go): key shares of a committee of Parties relayers (per-party vectors of the
+	// fixture extended with entries of real size), NQm + NEd generated peer ids (46 / 52 characters)
+	// after the explicit ones; topologies: generated peers after the explicit ones
+	Parties int      `json:"parties,omitempty"`
+	NQm     int      `json:"nqm,omitempty"`
+	NEd     int      `json:"ned,omitempty"`
+	PSeed   int      `json:"pseed,omitempty"`
+	TopoGen *TopoGen `json:"topogen,omitempty"`
 }
 
 // Step is one store attempt of a history.  The number of bytes after which a write fails / the process
@@ -72,6 +83,11 @@ type Case struct {
 	Old   *Value `json:"old,omitempty"`
 	New   Value  `json:"new"`
 	Steps []Step `json:"steps,omitempty"` // history
+	// history: all stores run in ONE child process on ONE long-lived store object (modes ok / efbig, the
+	// last step may be kill), the getter of the same object and of a fresh one reading after each
+	OneProc bool `json:"oneproc,omitempty"`
+	// roundtrip: the value is adjusted so that the stored file has exactly Size bytes (fitSize)
+	Size int `json:"size,omitempty"`
 	G     int    `json:"g,omitempty"`    // trace: spacing of the write cut points the judge enumerates
 	Step  int    `json:"step,omitempty"` // sweep: 1 = every k; n > 1 = every k in the first and last 192 bytes and every n-th in between
 }
@@ -138,8 +154,8 @@ func ecdsaValue(v Value) keyshare.ECDSAKeyshare {
 		panic(err)
 	}
 	k.Threshold = v.Threshold
-	k.Peers = peerIDs(v.Peers)
-	return k
+	k.Peers = allPeers(v)
+	return extendECDSA(k, v.Parties)
 }
 
 func frostValue(v Value) keyshare.FrostKeyshare {
@@ -148,13 +164,21 @@ func frostValue(v Value) keyshare.FrostKeyshare {
 		panic(err)
 	}
 	k.Threshold = v.Threshold
-	k.Peers = peerIDs(v.Peers)
-	return k
+	k.Peers = allPeers(v)
+	return extendFrost(k, v.Parties, v.PSeed)
+}
+
+// topoPeers: the explicit peers of a topology value followed by the generated ones
+func topoPeers(v Value) []TopoPeer {
+	if v.TopoGen == nil {
+		return v.Topo
+	}
+	return append(append([]TopoPeer{}, v.Topo...), genTopoPeers(*v.TopoGen)...)
 }
 
 func topoValue(v Value) *topology.NetworkTopology {
 	t := &topology.NetworkTopology{Threshold: v.Threshold, Peers: []*peer.AddrInfo{}}
-	for _, p := range v.Topo {
+	for _, p := range topoPeers(v) {
 		id, err := peer.Decode(p.ID)
 		if err != nil {
 			panic(err)
@@ -185,59 +209,9 @@ func build(store string, v Value) interface{} {
 	panic("unknown store " + store)
 }
 
-func doStore(store, path string, val interface{}) error {
-	switch store {
-	case "ecdsa":
-		return keyshare.NewECDSAKeyshareStore(path).StoreKeyshare(val.(keyshare.ECDSAKeyshare))
-	case "frost":
-		return keyshare.NewFrostKeyshareStore(path).StoreKeyshare(val.(keyshare.FrostKeyshare))
-	case "topology":
-		return topology.NewTopologyStore(path).StoreTopology(val.(*topology.NetworkTopology))
-	}
-	panic("unknown store " + store)
-}
+func doStore(store, path string, val interface{}) error { return newObj(store, path).store(val) }
 
-func doGet(store, path string) (interface{}, error) {
-	switch store {
-	case "ecdsa":
-		k, err := keyshare.NewECDSAKeyshareStore(path).GetKeyshare()
-		if err != nil {
-			return nil, err
-		}
-		if k.Peers == nil {
-			k.Peers = []peer.ID{}
-		}
-		return k, nil
-	case "frost":
-		k, err := keyshare.NewFrostKeyshareStore(path).GetKeyshare()
-		if err != nil {
-			return nil, err
-		}
-		if k.Peers == nil {
-			k.Peers = []peer.ID{}
-		}
-		return k, nil
-	case "topology":
-		t, err := topology.NewTopologyStore(path).Topology()
-		if err != nil {
-			return nil, err
-		}
-		if t == nil {
-			return nil, fmt.Errorf("nil topology")
-		}
-		// nil and empty lists are the same value
-		if t.Peers == nil {
-			t.Peers = []*peer.AddrInfo{}
-		}
-		for _, p := range t.Peers {
-			if p != nil && p.Addrs == nil {
-				p.Addrs = []ma.Multiaddr{}
-			}
-		}
-		return t, nil
-	}
-	panic("unknown store " + store)
-}
+func doGet(store, path string) (interface{}, error) { return newObj(store, path).get() }
 
 func equal(a, b interface{}) bool { return reflect.DeepEqual(a, b) }
 
@@ -277,6 +251,8 @@ func childMain(mode string) {
 		os.Exit(3)
 	}
 	switch mode {
+	case "ohist":
+		ohistChild()
 	case "store":
 		// exactly one real Store call (the value is built before, so that the trace of the store
 		// itself is the tail of the system-call log after the marker file is touched)
@@ -424,6 +400,16 @@ func translate(log, dir, target string) ([]Op, error) {
 // translateIds: ids numbers the files of the directory (shared by the attempts of a history, so that a
 // file left behind by one attempt is the same file for the next).
 func translateIds(log, dir, target string, ids map[string]int) ([]Op, error) {
+	segs, err := translateSegs(log, dir, target, ids, []string{target + ".marker"})
+	if err != nil {
+		return nil, err
+	}
+	return segs[0], nil
+}
+
+// translateSegs: the log of ONE process that touches the marker files in turn; segment i = the operations
+// between the creation of markers[i] and of markers[i+1] (descriptors are followed through the whole log).
+func translateSegs(log, dir, target string, ids map[string]int, markers []string) ([][]Op, error) {
 	f, err := os.Open(log)
 	if err != nil {
 		return nil, err
@@ -442,8 +428,15 @@ func translateIds(log, dir, target string, ids map[string]int) ([]Op, error) {
 		return n
 	}
 	inDir := func(p string) bool { return filepath.Dir(p) == dir }
-	var ops []Op
+	segs := make([][]Op, len(markers))
+	seg := -1
 	started := false
+	var ops []Op // the current segment
+	flush := func() {
+		if seg >= 0 {
+			segs[seg] = ops
+		}
+	}
 	sc := bufio.NewScanner(f)
 	sc.Buffer(make([]byte, 1<<20), 1<<28)
 	for sc.Scan() {
@@ -486,8 +479,14 @@ func translateIds(log, dir, target string, ids map[string]int) ([]Op, error) {
 			if !inDir(p) {
 				continue
 			}
-			if p == target+".marker" {
-				started = true
+			if strings.HasPrefix(p, target+".marker") {
+				for i, m := range markers {
+					if p == m && i > seg {
+						flush()
+						seg, ops, started = i, nil, true
+						break
+					}
+				}
 				continue
 			}
 			if !started {
@@ -587,10 +586,11 @@ func translateIds(log, dir, target string, ids map[string]int) ([]Op, error) {
 			}
 		}
 	}
+	flush()
 	if !started {
 		return nil, fmt.Errorf("marker not found in the strace log")
 	}
-	return ops, sc.Err()
+	return segs, sc.Err()
 }
 
 // ---- driving ----------------------------------------------------------------------------------------------
@@ -604,10 +604,18 @@ func spawnEnd(mode string, a childArgs, wrap []string) string {
 	if err != nil {
 		return "spawn: " + err.Error()
 	}
-	argv := append(append([]string{}, wrap...), self)
+	return spawnEndTo(mode, string(b), append(append([]string{}, wrap...), self), nil)
+}
+
+func hexOf(b []byte) string { return hex.EncodeToString(b) }
+
+func spawnEndTo(mode, args string, argv []string, stdout *os.File) string {
 	cmd := exec.Command(argv[0], argv[1:]...)
-	cmd.Env = append(os.Environ(), "C18_CHILD="+mode, "C18_ARGS="+string(b))
-	err = cmd.Run()
+	cmd.Env = append(os.Environ(), "C18_CHILD="+mode, "C18_ARGS="+args)
+	if stdout != nil {
+		cmd.Stdout = stdout
+	}
+	err := cmd.Run()
 	if err == nil {
 		return "exit 0"
 	}
@@ -674,11 +682,11 @@ func runHistory(c Case, dir, path string) Obs {
 	oldBytes, _ := os.ReadFile(path)
 	o := Obs{Old: hex.EncodeToString(oldBytes), Vids: vids}
 	ids := map[string]int{path: 0}
+	// the plan of every step, resolved against the real lengths
+	sos := make([]StepObs, len(c.Steps))
 	for i, st := range c.Steps {
 		own := len(datas[i+1])
 		so := StepObs{K: -1, Data: hex.EncodeToString(datas[i+1]), Fate: "done"}
-		wrap := []string{"strace", "-f", "-qq", "-xx", "-s", "1000000"}
-		args := childArgs{Store: c.Store, Path: path, New: st.Value, Limit: -1}
 		switch st.Mode {
 		case "efbig", "kill":
 			lo, hi := 0, own-1
@@ -699,18 +707,30 @@ func runHistory(c Case, dir, path string) Obs {
 				k = 0
 			}
 			so.K = k
-			args.Limit = k
-			args.Fatal = st.Mode == "kill"
 			if k < own {
 				so.Fate = map[string]string{"efbig": "failed", "kill": "died"}[st.Mode]
 			}
+		case "killat":
+			so.Fate = "died"
+		}
+		sos[i] = so
+	}
+	if c.OneProc {
+		return runOneProc(c, sdir, scratch, path, vals, vids, sos, o)
+	}
+	for i, st := range c.Steps {
+		so := sos[i]
+		wrap := []string{"strace", "-f", "-qq", "-xx", "-s", "1000000"}
+		args := childArgs{Store: c.Store, Path: path, New: st.Value, Limit: so.K}
+		switch st.Mode {
+		case "efbig", "kill":
+			args.Fatal = st.Mode == "kill"
 		case "killat":
 			sc := map[string]string{"fchmod": "fchmod,fchmodat", "fsync": "fsync,fdatasync", "rename": "rename,renameat,renameat2"}[st.Syscall]
 			if sc == "" {
 				return Obs{Err: "unknown killat syscall " + st.Syscall}
 			}
 			wrap = append(wrap, "-e", "inject="+sc+":signal=SIGKILL:when=1")
-			so.Fate = "died"
 		}
 		log := filepath.Join(tmpRoot, fmt.Sprintf("strace%d_%d.log", caseNo, i))
 		wrap = append(wrap, "-o", log, "-e", traceSet+",fchmodat")
@@ -788,27 +808,45 @@ func run(c Case) (o Obs) {
 	case "history":
 		return runHistory(c, dir, path)
 	case "roundtrip":
-		v := build(c.Store, c.New)
+		nv := c.New
+		if c.Size > 0 {
+			scratch := filepath.Join(dir, "scratch")
+			if err := os.MkdirAll(scratch, 0o755); err != nil {
+				return Obs{Err: err.Error()}
+			}
+			nv = fitSize(c.Store, nv, c.Size, scratch)
+		}
+		v := build(c.Store, nv)
 		if err := doStore(c.Store, path, v); err != nil {
 			return Obs{Equal: false, Note: "store: " + err.Error()}
 		}
+		b1, err := os.ReadFile(path)
+		if err != nil {
+			return Obs{Equal: false, Note: "read file: " + err.Error()}
+		}
 		got, err := doGet(c.Store, path)
 		if err != nil {
-			return Obs{Equal: false, Note: "get: " + err.Error()}
+			return Obs{Equal: false, Len: len(b1), Note: "get: " + err.Error()}
 		}
-		// and once more over the previous value (a second store replaces, it does not append)
+		// and once more over the previous value (a second store replaces, it does not append): the value
+		// read back is stored again and must give the same file, byte for byte
 		if err := doStore(c.Store, path, got); err != nil {
-			return Obs{Equal: false, Note: "store again: " + err.Error()}
+			return Obs{Equal: false, Len: len(b1), Note: "store again: " + err.Error()}
+		}
+		b2, err := os.ReadFile(path)
+		if err != nil {
+			return Obs{Equal: false, Len: len(b1), Note: "read file again: " + err.Error()}
 		}
 		got2, err := doGet(c.Store, path)
 		if err != nil {
-			return Obs{Equal: false, Note: "get again: " + err.Error()}
+			return Obs{Equal: false, Len: len(b1), Note: "get again: " + err.Error()}
 		}
-		o := Obs{Equal: equal(got, v) && equal(got2, v)}
-		if c.Store == "topology" {
-			if b, err := os.ReadFile(path); err == nil {
-				o.File = hex.EncodeToString(b)
-			}
+		o := Obs{Equal: equal(got, v) && equal(got2, v) && bytes.Equal(b1, b2), Len: len(b1)}
+		if !o.Equal {
+			o.Note = fmt.Sprintf("value read back differs (file of %d bytes, %d after storing the value read back)", len(b1), len(b2))
+		}
+		if c.Store == "topology" && len(b2) <= 4096 {
+			o.File = hex.EncodeToString(b2)
 		}
 		return o
 	case "trace":
@@ -1052,6 +1090,224 @@ func genHistories(r *vgen.Rng, thorough bool) []Case {
 	return out
 }
 
+// one-process histories: every store on ONE long-lived store object in ONE process; a store completes
+// or has its write fail after k bytes (the process survives), the last one may be killed
+func genObjHistories(r *vgen.Rng, thorough bool) []Case {
+	var out []Case
+	nh := map[string]int{"topology": 6, "frost": 6, "ecdsa": 2}
+	if thorough {
+		nh = map[string]int{"topology": 60, "frost": 42, "ecdsa": 12}
+	}
+	edge := func() int {
+		if r.Chance(1, 4) {
+			return vgen.Pick(r, []int{0, 1, 999})
+		}
+		return r.Intn(1000)
+	}
+	for _, st := range []string{"topology", "frost", "ecdsa"} {
+		g := 1
+		if st == "ecdsa" {
+			g = 97
+		}
+		for i := 0; i < nh[st]; i++ {
+			old := genValue(r, st)
+			c := Case{Kind: "history", Store: st, Old: &old, G: g, OneProc: true}
+			pat := i % 6
+			if st == "ecdsa" && !thorough { // two cases: both with a healthy store after a failed one
+				pat = []int{vgen.Pick(r, []int{0, 1, 3}), 5}[i%2]
+			}
+			switch pat {
+			case 5:
+				// a failed store, then the SAME value again (a retry); or back to the value stored before
+				v, w := genSized(r, st, r.Bool()), genSized(r, st, r.Bool())
+				c.Steps = []Step{
+					{Value: v, Mode: "efbig", Ref: -1, Permille: edge()},
+					{Value: v, Mode: "ok", Ref: -1},
+				}
+				if st != "ecdsa" {
+					c.Steps = append(c.Steps,
+						Step{Value: w, Mode: vgen.Pick(r, []string{"ok", "efbig"}), Ref: -1, Permille: edge()},
+						Step{Value: v, Mode: "ok", Ref: -1})
+				}
+			case 0:
+				// a failed store of a LONGER value, then a healthy store of a SHORTER one
+				c.Steps = []Step{
+					{Value: genSized(r, st, true), Mode: "efbig", Ref: 1, Permille: edge()},
+					{Value: genSized(r, st, false), Mode: "ok", Ref: -1},
+				}
+			case 1:
+				// healthy, failed, healthy
+				c.Steps = []Step{
+					{Value: genSized(r, st, r.Bool()), Mode: "ok", Ref: -1},
+					{Value: genSized(r, st, r.Bool()), Mode: "efbig", Ref: -1, Permille: edge()},
+					{Value: genSized(r, st, r.Bool()), Mode: "ok", Ref: -1},
+				}
+			case 2:
+				// healthy stores only: longer, shorter, longer (nothing of one store shows in the next)
+				c.Steps = []Step{
+					{Value: genSized(r, st, true), Mode: "ok", Ref: -1},
+					{Value: genSized(r, st, false), Mode: "ok", Ref: -1},
+					{Value: genValue(r, st), Mode: "ok", Ref: -1},
+				}
+			case 3:
+				// two failed stores in a row (the second before any byte is written), then a healthy one
+				c.Steps = []Step{
+					{Value: genSized(r, st, false), Mode: "efbig", Ref: -1, Permille: edge()},
+					{Value: genSized(r, st, true), Mode: "efbig", Ref: -1, Permille: 0},
+					{Value: genSized(r, st, r.Bool()), Mode: "ok", Ref: -1},
+				}
+			default:
+				n := r.Range(2, 4)
+				if st == "ecdsa" {
+					n = r.Range(2, 3)
+				}
+				for j := 0; j < n; j++ {
+					s := Step{Value: genSized(r, st, r.Bool()), Ref: -1, Permille: edge(), Mode: vgen.Pick(r, []string{"ok", "efbig", "efbig"})}
+					if r.Chance(1, 3) {
+						s.Value = genValue(r, st)
+					}
+					if r.Chance(1, 4) { // a value stored (or tried) before
+						if j > 0 {
+							s.Value = c.Steps[r.Intn(j)].Value
+						} else {
+							s.Value = old
+						}
+					}
+					if s.Mode == "efbig" && r.Chance(1, 3) { // beyond the end of another value of the history
+						s.Ref = r.Range(-2, n-1)
+						if s.Ref == -1 || s.Ref == j {
+							s.Ref = -2
+						}
+					}
+					c.Steps = append(c.Steps, s)
+				}
+				switch r.Intn(4) {
+				case 0:
+					c.Steps[n-1].Mode = "kill"
+				case 1:
+				default:
+					c.Steps[n-1].Mode = "ok"
+				}
+			}
+			out = append(out, c)
+		}
+	}
+	return out
+}
+
+func isLarge(c Case) bool {
+	v := c.New
+	return c.Size > 0 || v.Parties > 3 || v.NQm+v.NEd > 8 || (v.TopoGen != nil && v.TopoGen.N > 16)
+}
+
+// round trips of values far beyond the fixtures: committees of 10..100 (thorough: ..400) relayers,
+// topologies of hundreds / thousands of peers and with long multiaddrs, and files of EXACT sizes around
+// 2^12, 2^16 and 2^20 (and a few sizes in between) for all three stores
+func genLarge(r *vgen.Rng, thorough bool) []Case {
+	var out []Case
+	rt := func(store string, v Value, size int) {
+		out = append(out, Case{Kind: "roundtrip", Store: store, New: v, Size: size})
+	}
+	parties := []int{10, 21, 22, 23, 50, 100, r.Range(4, 40), r.Range(24, 99)}
+	if thorough {
+		parties = append(parties, 5, 16, 24, 32, 64, 128, 200, 400, r.Range(4, 400), r.Range(4, 400))
+	}
+	for _, n := range parties {
+		rt("ecdsa", Value{Fixture: r.Intn(3), Threshold: r.Range(1, n), Parties: n, NQm: n / 2, NEd: n - n/2, PSeed: r.Intn(1000)}, 0)
+	}
+	fparties := []int{10, 22, 100, 683, 1000, r.Range(4, 700)}
+	if thorough {
+		fparties = append(fparties, 50, 300, 5000, 20000, r.Range(4, 5000))
+	}
+	for _, n := range fparties {
+		rt("frost", Value{Fixture: r.Intn(3), Threshold: r.Range(1, n), Parties: n, NQm: n - n/2, NEd: n / 2, PSeed: r.Intn(1000)}, 0)
+	}
+	// peer lists far longer than the committee (the list is independent of the key material)
+	for _, st := range []string{"ecdsa", "frost"} {
+		rt(st, Value{Fixture: r.Intn(3), Threshold: r.Range(1, 1<<30), NQm: r.Range(100, 400), NEd: r.Range(100, 400), PSeed: r.Intn(1000)}, 0)
+	}
+	// topologies: many peers, many addresses, long addresses
+	for _, g := range []TopoGen{
+		{N: 100, Addrs: 1, Label: 16}, {N: 300, Addrs: 2, Label: 20}, {N: 1000, Addrs: 1, Label: 40}, {N: 40, Addrs: 3, Label: 250},
+		{N: 5, Addrs: 40, Label: 30}, {N: 2, Addrs: 1, Label: 5000}, {N: r.Range(17, 600), Addrs: r.Range(0, 4), Label: r.Range(1, 120)},
+	} {
+		g := g
+		g.Seed = r.Intn(1000)
+		rt("topology", Value{Threshold: r.Range(1, g.N), TopoGen: &g}, 0)
+	}
+	if thorough {
+		for _, g := range []TopoGen{{N: 5000, Addrs: 2, Label: 30}, {N: 20000, Addrs: 1, Label: 10}, {N: 3, Addrs: 2, Label: 70000}} {
+			g := g
+			g.Seed = r.Intn(1000)
+			rt("topology", Value{Threshold: r.Range(1, g.N), TopoGen: &g}, 0)
+		}
+	}
+	// exact file sizes
+	sizes := map[string][]int{}
+	for _, st := range []string{"topology", "frost", "ecdsa"} {
+		ss := []int{}
+		for _, e := range []int{12, 16, 20} {
+			if st == "ecdsa" && e == 12 {
+				continue // an ECDSA share of one party has 6 kB
+			}
+			ss = append(ss, 1<<e-1, 1<<e, 1<<e+1)
+		}
+		// one more power of two and two sizes in between
+		e := vgen.Pick(r, []int{13, 14, 15, 17, 18, 19})
+		ss = append(ss, 1<<e-1, 1<<e, 1<<e+1, r.Range(1<<13, 1<<16), r.Range(1<<16, 1<<20))
+		if thorough {
+			for e := 13; e <= 22; e++ {
+				ss = append(ss, 1<<e-1, 1<<e, 1<<e+1, r.Range(1<<(e-1), 1<<e))
+			}
+		}
+		sizes[st] = ss
+	}
+	// far beyond any fixture: 16 MiB + 1 (4 MiB + 1 for FROST, whose values of that size are slow to
+	// build), in the shape that is cheap to build: one very long address / a large committee / a long
+	// peer list
+	{
+		g := TopoGen{N: 3, Seed: r.Intn(1000), Addrs: 1, Label: 20}
+		rt("topology", Value{Threshold: 2, TopoGen: &g}, 1<<24+1)
+		rt("ecdsa", Value{Fixture: r.Intn(3), Parties: 6200, PSeed: r.Intn(1000)}, 1<<24+1)
+		rt("frost", Value{Fixture: r.Intn(3), Parties: 3, PSeed: r.Intn(1000)}, 1<<22+1)
+		if thorough {
+			rt("frost", Value{Fixture: r.Intn(3), Parties: 3, PSeed: r.Intn(1000)}, 1<<24+1)
+			rt("ecdsa", Value{Fixture: r.Intn(3), Parties: 3, PSeed: r.Intn(1000)}, 1<<24-1)
+			g2 := TopoGen{N: 3, Seed: r.Intn(1000), Addrs: 1, Label: 20}
+			rt("topology", Value{Threshold: 2, TopoGen: &g2}, 1<<26+1)
+		}
+	}
+	for _, st := range []string{"topology", "frost", "ecdsa"} {
+		for _, sz := range sizes[st] {
+			switch st {
+			case "topology":
+				g := TopoGen{Seed: r.Intn(1000), Addrs: r.Range(1, 2), Label: r.Range(8, 40)}
+				g.N = sz / 90 // more than fit: fitSize reduces
+				if r.Chance(1, 3) {
+					g.N, g.Label = 3, 20 // a few peers and one very long address
+				}
+				rt(st, Value{Threshold: r.Range(1, 9), TopoGen: &g}, sz)
+			case "frost":
+				n := 3
+				if r.Bool() {
+					n = sz / 100 // a large committee (fitSize reduces), else a long peer list
+					if n > 3000 {
+						n = 3000 // (larger committees are slow to build: the peer list takes the rest)
+					}
+				}
+				rt(st, Value{Fixture: r.Intn(3), Parties: n, PSeed: r.Intn(1000)}, sz)
+			case "ecdsa":
+				n := 3
+				if r.Bool() {
+					n = sz / 2700
+				}
+				rt(st, Value{Fixture: r.Intn(3), Parties: n, PSeed: r.Intn(1000)}, sz)
+			}
+		}
+	}
+	return out
+}
+
 func genAll(r *vgen.Rng, tier string) []Case {
 	var out []Case
 	thorough := tier == "thorough"
@@ -1072,6 +1328,7 @@ func genAll(r *vgen.Rng, tier string) []Case {
 	}
 	// histories
 	out = append(out, genHistories(r, thorough)...)
+	out = append(out, genObjHistories(r, thorough)...)
 	// failed-write sweeps at every byte offset 0..len
 	nsw := map[string]int{"topology": 6, "frost": 3, "ecdsa": 1}
 	if thorough {
@@ -1083,7 +1340,16 @@ func genAll(r *vgen.Rng, tier string) []Case {
 			if st != "topology" {
 				nw.Fixture = (old.Fixture + 1 + r.Intn(2)) % 3 // a different key
 			}
-			step := 1 // every byte, also for the 14.5 kB ECDSA share (about 10 s)
+			if reflect.DeepEqual(old, nw) { // the sweep tells the old value from the new one
+				nw.Threshold++
+			}
+			// every byte; the 14.5 kB ECDSA share (about 10 s at every byte; it is written by the same
+			// writeFileAtomic of package keyshare as the FROST share, which is swept at every byte): quick
+			// tier every byte of the first and last 192 and every 3rd in between
+			step := 1
+			if st == "ecdsa" && !thorough {
+				step = 3
+			}
 			out = append(out, Case{Kind: "sweep", Store: st, Old: &old, New: nw, Step: step})
 		}
 	}
@@ -1111,6 +1377,7 @@ func genAll(r *vgen.Rng, tier string) []Case {
 			out = append(out, Case{Kind: "roundtrip", Store: "topology", New: genTopo(r, r.Range(0, 7))})
 		}
 	}
+	out = append(out, genLarge(r, thorough)...)
 	return out
 }
 
@@ -1144,8 +1411,9 @@ func printable(b []byte) bool {
 // that need JSON escapes).
 func coqTopo(v Value) (string, bool) {
 	okStr := func(s string) bool { return printable([]byte(s)) && !strings.ContainsAny(s, "\"\\<>&") }
-	peers := make([]string, 0, len(v.Topo))
-	for _, p := range v.Topo {
+	tp := topoPeers(v)
+	peers := make([]string, 0, len(tp))
+	for _, p := range tp {
 		if !okStr(p.ID) {
 			return "", false
 		}
@@ -1259,7 +1527,7 @@ func coq(c Case, o Obs) string {
 		}
 		return "Sweep " + vgen.N(uint64(len(o.Ks)-1)) + " " + vgen.List(items)
 	case "roundtrip":
-		if c.Store == "topology" && o.File != "" {
+		if c.Store == "topology" && o.File != "" && c.Size == 0 {
 			if t, ok := coqTopo(c.New); ok {
 				if b, _ := hex.DecodeString(o.File); printable(b) {
 					return "TopoFile " + t + " " + vgen.Str(string(b)) + " " + vgen.Bool(o.Equal)
@@ -1298,7 +1566,15 @@ func main() {
 		Run:       run,
 		Coq:       coq,
 		ShardSize: 4,
-		Kind:      func(c Case) string { return c.Kind + "-" + c.Store },
+		Kind: func(c Case) string {
+			switch {
+			case c.Kind == "history" && c.OneProc:
+				return "history1p-" + c.Store
+			case c.Kind == "roundtrip" && isLarge(c):
+				return "roundtrip-large-" + c.Store
+			}
+			return c.Kind + "-" + c.Store
+		},
 		NonTrivial: func(c Case, o Obs) bool {
 			switch c.Kind {
 			case "trace":
@@ -1308,8 +1584,11 @@ func main() {
 			case "history":
 				return len(o.Hist) >= 2
 			}
-			return c.Store != "topology" || len(c.New.Topo) > 0
+			if isLarge(c) {
+				return o.Len > 16000
+			}
+			return c.Store != "topology" || len(c.New.Topo) > 0 || c.Size > 0
 		},
-		Rule: "traces: one real store of a generated value over a generated previous value per case, run under strace in a child process; sweeps: a child process repeats the real store with RLIMIT_FSIZE = k for k = 0..len (every byte offset, for all three stores) and reads back with the real getter; histories: 2..4 real stores of generated values of different lengths on one file, each in its own child process under strace over the leftovers of the earlier ones, completing / failing after k bytes (RLIMIT_FSIZE, SIGXFSZ ignored) / killed after k bytes (SIGXFSZ fatal) or on entry of fchmod, fsync, rename (SIGKILL), k chosen over the whole value and beyond the end of a shorter value stored later, the real getter after every store, for all three stores; round trips: topologies of 0..7 peers with 0..2 addresses each and thresholds 1..6, the three fixture ECDSA and FROST shares with generated thresholds and 0, 2..4 peers; distinct = distinct input JSON; non-trivial = trace with at least one translated operation / history of at least two observed stores / sweep over a non-empty file / round trip of a key share or a topology with at least one peer",
+		Rule: "traces: one real store of a generated value over a generated previous value per case, run under strace in a child process; sweeps: a child process repeats the real store with RLIMIT_FSIZE = k for k = 0..len (every byte offset, for all three stores) and reads back with the real getter; histories: 2..4 real stores of generated values of different lengths on one file, each in its own child process under strace over the leftovers of the earlier ones, completing / failing after k bytes (RLIMIT_FSIZE, SIGXFSZ ignored) / killed after k bytes (SIGXFSZ fatal) or on entry of fchmod, fsync, rename (SIGKILL), k chosen over the whole value and beyond the end of a shorter value stored later, the real getter after every store, for all three stores; one-process histories: 2..4 real stores (healthy / failing after k bytes, the last one possibly killed; retries of the same value included) in ONE child process on ONE long-lived store object, the getters of that object and of a fresh one after every store; round trips: topologies of 0..7 peers with 0..2 addresses each and thresholds 1..6, the three fixture ECDSA and FROST shares with generated thresholds and 0, 2..4 peers, large values (ECDSA committees of 10..100, FROST committees of 10..1000, peer lists of hundreds of ids, topologies of 100..1000 peers / 40 addresses per peer / multiaddrs of 250 and 5000 characters) and files of exactly 2^12, 2^16, 2^20 (+-1), one more power of two +-1, random sizes and 2^24+1 bytes for all three stores, the value read back stored again and compared byte for byte; distinct = distinct input JSON; non-trivial = trace with at least one translated operation / history of at least two observed stores / sweep over a non-empty file / round trip of a key share or a topology with at least one peer (large values: a stored file of more than 16000 bytes)",
 	})
 }
